@@ -63,6 +63,30 @@ def fill(claim, na):
           "predictions; global RMSE and MIP/MAD have their stated forms.",
           "Real-number reading; one cache serves one metric and one curve; breakpoints ascending valid indices.",
           "DESIGN.md 3/C15")
-    for pid in ["C01", "C02", "C04", "C05", "C06", "C07", "C08", "C09", "C10", "C12", "C14",
+    claim("C01", "other", "work-stack rule over the loop transfer functions: symbolic index intervals + linear range obligations, event counting, guard implication, callee link/shape rules",
+          "Decides, for all inputs, the structural part: every range pushed by rdp/_rdp_fixed/_grdp is a non-empty strict "
+          "sub-range of the popped one (split index proved in [1, L-2]); every poppable range has L >= 3 (push guards, guarded "
+          "seeds, accepting literal for <= 2 points under t>0); exactly one retained index per step, seeds [0,n-1], final n-1; "
+          "ascending output by push order / sort; removed-row arithmetic agrees between rdp() and compute_removed_points(); every "
+          "Distance choice resolves to a 3-argument callee returning one distance per point and never reaching numpy.cross. "
+          "The linear iteration bound follows from these facts by a recorded paper argument; numerical clauses are not decided.",
+          "t>0 (t<=1 for R2), n>=2; integer index arithmetic; interval idioms table (argmax over d[a:-b]+a, int(L/2)); the distance "
+          "callee returns one value per row (checked on both callees' bodies).",
+          "DESIGN.md 3/C01")
+    claim("C04", "other", "guard normalisation to sign sets over the loop transfer function + normal-form equality of the dispatch table entries",
+          "Decides the structural part for all inputs: on ranges with interior points rdp() splits iff the endpoint-line cost of "
+          "exactly the popped range is on the rejecting side of t (r < t for R2, r >= t otherwise) and retains otherwise; the "
+          "Metrics dispatch table is total and each entry equals the homonymous metric on (y, m*x+b); the split index is the "
+          "argmax over the interior of distance_points(pt, pt[0], pt[-1]); the children share the split point.",
+          "Real-number reading of the metric formulas; 'beyond rounding noise' is not decided.",
+          "DESIGN.md 3/C04")
+    claim("C05", "other", "event counting and ordering over the loop transfer function + def-use of the budget + normal-form equality of the scorers + E3 purity",
+          "Decides the structural part for all inputs: one insertion and one budget decrement per iteration, loop test "
+          "`length > 0 and stack`, budget length-2 on a 2-element seed, budget unused by the refinement (nesting), child priority = "
+          "pure scorer(pt, index)[side], ascending sort on the priority then pop from the end, Order dispatch total with each "
+          "scorer equal to its definition, children pushed only with an interior point, split index interior and farthest.",
+          "Integer indices; ties among equal priorities and rounding-noise clause not decided.",
+          "DESIGN.md 3/C05")
+    for pid in ["C02", "C06", "C07", "C08", "C09", "C10", "C12", "C14",
                 "C18"]:
         na(pid, PENDING)
